@@ -468,6 +468,11 @@ def run(prog, rep):
     if 'json.dumps(self.tags)' not in ttj or 'json.loads(json_string)' not in tfj:
         rep.violation('R6', loc(tags.module, tags.node), 'Tags.to_json/from_json', 'codec pair', 'Tags must encode its list with json.dumps and decode with json.loads')
 
+    # ---- R10: the two size tests of the JSON blob constructor agree (shared with C16) ----
+    rep.rule('R10', 'a JSON blob accepted as an object is accepted again as the text it encodes to (the size tests agree)', floor=1)
+    from .c16 import check_size_tests_agree
+    check_size_tests_agree(prog, rep, 'R10')
+
     # ---- R7 ----
     jd = prog.cls(JSONDATA)
     ji = jd.methods.get('__init__')
